@@ -67,7 +67,7 @@ static Plan make_plan(const PropDef &pd, uint64_t seed, uint64_t run) {
     std::string id = pd.id;
     if (id == "C03") return gen_inverse(rng);
     if (id == "C04") return gen_tweak(rng);
-    if (id == "C05") return gen_stream(rng);
+    if (id == "C05") return run % 4 == 3 ? gen_packets(rng) : gen_stream(rng);
     if (id == "C06") return gen_xhost(rng, true);
     if (id == "C07") return gen_parallel(rng, run);
     if (id == "C08") return gen_mixture(rng, run);
@@ -382,7 +382,7 @@ static Plan minimise(const PropDef &pd, Plan p, uint64_t seed, uint64_t run, con
         size_t chunk = (p.ops.size() + n - 1) / n; bool reduced = false;
         for (size_t start = 0; start < p.ops.size(); start += chunk) {
             Plan q = p; size_t end = std::min(start + chunk, q.ops.size());
-            q.ops.erase(q.ops.begin() + start, q.ops.begin() + end);
+            erase_ops(q, start, end);
             if (!q.ops.empty() && still_fails(pd, q, seed, run, inv)) { p = q; n = std::max<size_t>(n - 1, 2); reduced = true; break; }
         }
         if (!reduced) { if (chunk <= 1) break; n = std::min(n * 2, p.ops.size()); }
@@ -390,7 +390,7 @@ static Plan minimise(const PropDef &pd, Plan p, uint64_t seed, uint64_t run, con
     // per-argument shrinking
     for (size_t i = 0; i < p.ops.size() && g_trials < 2500; ++i) {
         Op &o = p.ops[i];
-        if (o.code == OP_ENC || o.code == OP_PENC || o.code == OP_PDEC) {
+        if ((o.code == OP_ENC || o.code == OP_PENC || o.code == OP_PDEC) && !(o.flags & F_CHAIN)) {
             unsigned bs = 8;
             unsigned cands[] = {0, 1, bs, 2 * bs, o.size / 2, o.size - 1, o.size - bs};
             for (unsigned c : cands) {
